@@ -105,6 +105,28 @@ def _same(a, b, t, scale=1.0):
     return a == b
 
 
+def _decision_boundary(run, inp, py):
+    """does the PYTHON outcome change branch (skip/raise/return kind, or a boolean/integer result) when one float input moves by 1e-9 relative?"""
+    import warnings
+
+    def shape(r):
+        return (r[0],) + tuple(x for x in (_flatten(r[1]) if r[0] not in ("skip", "raise") else []) if isinstance(x, (bool, np.bool_, int, np.integer, str)))
+    base = shape(py)
+    for k, v in inp.items():
+        if not isinstance(v, (float, np.floating)) or not math.isfinite(float(v)) or v == 0:
+            continue
+        for d in (1e-9, -1e-9):
+            with np.errstate(all="ignore"), warnings.catch_warnings():
+                warnings.simplefilter("ignore")
+                try:
+                    r = run(dict(inp, **{k: float(v) * (1 + d)}))
+                except Exception:   # noqa
+                    continue
+            if shape(r) != base:
+                return True
+    return False
+
+
 def validate(ctx, groups, rng):
     """fills ctx.supporting['translator_validation'] and reports a disagreement as a violation of the tie (with the input)"""
     import py2lean
@@ -147,7 +169,7 @@ def validate(ctx, groups, rng):
             cases.append(inp)
             lines.append(f"py.{name} " + " ".join(toks))
         outs = run_driver(lines, exe="drv_py")
-        agree = raised = 0
+        agree = raised = near = 0
         for inp, line in zip(cases, outs):
             with np.errstate(all="ignore"):
                 import warnings
@@ -178,6 +200,11 @@ def validate(ctx, groups, rng):
                     scale = max([1.0] + [abs(float(v)) for v in inp.values() if isinstance(v, (float, np.floating)) and math.isfinite(float(v))]
                                 + [abs(x) for x in lits])
                     ok = all(_same(a, b, ty, scale) for a, b, ty in zip(vals, lean_vals, ot))
+            if not ok and _decision_boundary(run, inp, py):
+                # the Python side itself takes another branch when one input moves by 1e-9 (relative): the input sits on a comparison whose operands are
+                # transcendental (10**x vs exp(x ln 10)) -- a rounding tie, counted and not judged (false alarm at seed 25 of the session-4 sweep corrected)
+                near += 1
+                continue
             if ok:
                 agree += 1
             else:
@@ -188,7 +215,7 @@ def validate(ctx, groups, rng):
                 note[name] = "DISAGREE"
                 break
         else:
-            note[name] = f"agree on {agree} inputs" + (f" ({raised} raised in Python, not compared)" if raised else "")
+            note[name] = f"agree on {agree} inputs" + (f" ({raised} raised in Python, not compared)" if raised else "") + (f" ({near} on a decision boundary, not compared)" if near else "")
         ctx.traces += agree
 
 
